@@ -221,6 +221,12 @@ func (obj *Flavor) inheritFlavor(cf *Flavor) {
 			obj.methods[k] = m
 		}
 		for _, ic := range im.Combinations {
+			if cf != &vanilla && ic.From == slip.Class(&vanilla) {
+				// The methods of the vanilla-flavor come last, they are
+				// taken when the vanilla-flavor itself is inherited and
+				// not from a component that has them already.
+				continue
+			}
 			if !m.HasMethodFromClass(ic.From.Name()) {
 				m.Combinations = append(m.Combinations, ic)
 			}
